@@ -68,7 +68,8 @@ Inductive pv : Type :=
 | VBatch (i : N)                 (* pa.RecordBatch, opaque *)
 | VIpcSchema (i : N)             (* bytes: schema.serialize() *)
 | VIpcBatch (i : N)              (* bytes: IPC stream holding the batch *)
-| VIpcRow (r : list (N * pv))    (* bytes: IPC stream holding a one-row batch with these columns *)
+| VIpcRow (valid : bool) (r : list (N * pv))  (* bytes: IPC stream holding a one-row batch with these columns;
+                                     valid = the batch passes RecordBatch.validate(full=True) *)
 | VTagged (tag : N) (payload : pv)    (* bytes: union marker + uint16-LE tag + payload *)
 | VPacked (r : list (N * pv))    (* bytes: msgpack map of a row dict (symbolic, used by sym_pack only) *)
 | VPrefixed (b : N) (payload : pv).   (* bytes: one byte followed by payload *)
@@ -152,7 +153,7 @@ Fixpoint assoc_scalar {A : Type} (l : list (scalar * A)) (s : scalar) : option A
 
 (* ------------------------------------------------------------------ helpers on values *)
 Definition is_bytes (v : pv) : bool :=
-  match v with VBytes _ | VIpcSchema _ | VIpcBatch _ | VIpcRow _ | VTagged _ _ | VPacked _ | VPrefixed _ _ => true | _ => false end.
+  match v with VBytes _ | VIpcSchema _ | VIpcBatch _ | VIpcRow _ _ | VTagged _ _ | VPacked _ | VPrefixed _ _ => true | _ => false end.
 Definition bytes_empty (v : pv) : bool := match v with VBytes [] => true | _ => false end.
 Definition is_obj (v : pv) : bool := match v with VObj _ _ => true | _ => false end.
 Definition is_none (v : pv) : bool := match v with VNone => true | _ => false end.
@@ -194,6 +195,78 @@ Definition mk_dict (l : list (pv * pv)) : res pv :=       (* dict(pairs) / {k: v
 Definition as_pair (p : pv) : res (pv * pv) :=            (* k, v = p *)
   match p with VTuple [k; v] => Ok (k, v) | VList [k; v] => Ok (k, v) | VTuple _ | VList _ => Err EValueError | _ => Err ETypeError end.
 
+(* ------------------------------------------------------------------ RecordBatch.validate(full=True) of a built row
+   pyarrow quirk (25.0.1): pa.array gives the children of a NULL struct slot "empty values"; a dictionary-typed child
+   (an Enum field) gets index 0, which full validation rejects when nothing else populated that dictionary.
+   A summary mirrors the Arrow type: per dictionary node, was a value appended (pop) and was an empty value appended (haz). *)
+Inductive summ := SLeaf | SDict (pop haz : bool) | SList (s : summ) | SMap (k v : summ) | SStruct (fs : list summ).
+
+Fixpoint empty_summ (a : aty) : summ :=
+  match a with
+  | ADictStr => SDict false false
+  | AList a' => SList (empty_summ a')
+  | AMap k v => SMap (empty_summ k) (empty_summ v)
+  | AStruct fs => SStruct (map (fun p => empty_summ (snd p)) fs)
+  | _ => SLeaf
+  end.
+(* what a child of a null struct slot receives *)
+Fixpoint haz_summ (a : aty) : summ :=
+  match a with
+  | ADictStr => SDict false true
+  | AStruct fs => SStruct (map (fun p => haz_summ (snd p)) fs)
+  | _ => empty_summ a
+  end.
+Fixpoint merge (a b : summ) {struct a} : summ :=
+  match a, b with
+  | SDict p h, SDict p' h' => SDict (p || p') (h || h')
+  | SList x, SList y => SList (merge x y)
+  | SMap k v, SMap k' v' => SMap (merge k k') (merge v v')
+  | SStruct l, SStruct l' =>
+      SStruct ((fix go (l l' : list summ) : list summ :=
+                  match l, l' with
+                  | x :: r, y :: r' => merge x y :: go r r'
+                  | _, _ => l
+                  end) l l')
+  | _, _ => a
+  end.
+Fixpoint summ_of (a : aty) (v : pv) {struct a} : summ :=
+  match v with
+  | VNone => match a with AStruct fs => SStruct (map (fun p => haz_summ (snd p)) fs) | _ => empty_summ a end
+  | _ =>
+    match a with
+    | ADictStr => SDict true false
+    | AList a' =>
+        match v with
+        | VList l => SList (fold_right (fun x acc => merge (summ_of a' x) acc) (empty_summ a') l)
+        | _ => empty_summ a
+        end
+    | AMap ak av =>
+        match v with
+        | VList l =>
+            SMap (fold_right (fun p acc => match p with VTuple [x; _] => merge (summ_of ak x) acc | _ => acc end) (empty_summ ak) l)
+                 (fold_right (fun p acc => match p with VTuple [_; y] => merge (summ_of av y) acc | _ => acc end) (empty_summ av) l)
+        | _ => empty_summ a
+        end
+    | AStruct fs =>
+        match v with
+        | VRow r => SStruct (map (fun p => summ_of (snd p) (row_get (fst p) r)) fs)
+        | _ => empty_summ a
+        end
+    | _ => SLeaf
+    end
+  end.
+Fixpoint bad_summ (s : summ) : bool :=
+  match s with
+  | SLeaf => false
+  | SDict p h => h && negb p
+  | SList x => bad_summ x
+  | SMap k v => bad_summ k || bad_summ v
+  | SStruct l => existsb bad_summ l
+  end.
+(* a top-level None column is the cached pa.nulls(1, type) array, which is valid *)
+Definition batch_valid (sch : list (N * aty)) (r : list (N * pv)) : bool :=
+  forallb (fun p => let v := row_get (fst p) r in is_none v || negb (bad_summ (summ_of (snd p) v))) sch.
+
 Section Model.
   Variable cf : cfg.
 
@@ -226,6 +299,23 @@ Section Model.
   Definition schema_fields := schema_fields_with infer.
 
   (* ---------------------------------------------------------------- pa.array([v], type=a)[0].as_py() *)
+  Section ArrowFields.
+    Variable rec : aty -> pv -> res pv.
+    Variable r : list (N * pv).
+    Fixpoint arrow_fields_with (fs : list (N * aty)) : res (list (N * pv)) :=
+      match fs with
+      | [] => Ok []
+      | (n, a') :: q => x <- rec a' (row_get n r) ;; q' <- arrow_fields_with q ;; Ok ((n, x) :: q')
+      end.
+    Definition arrow_pair (ak av : aty) (p : pv) : res pv :=
+      match p with
+      | VTuple [x; y] =>
+          x' <- rec ak x ;;
+          if is_none x' then Err EArrow else y' <- rec av y ;; Ok (VTuple [x'; y'])
+      | _ => Err EArrow
+      end.
+  End ArrowFields.
+
   Fixpoint arrow_rt (a : aty) (v : pv) : res pv :=
     match v with
     | VNone => Ok VNone
@@ -240,25 +330,12 @@ Section Model.
       | AList a' => match v with VList l => l' <- mapM (arrow_rt a') l ;; Ok (VList l') | _ => Err EArrow end
       | AMap ak av =>
           match v with
-          | VList l =>
-              l' <- mapM (fun p => match p with
-                                   | VTuple [x; y] =>
-                                       x' <- arrow_rt ak x ;;
-                                       if is_none x' then Err EArrow else y' <- arrow_rt av y ;; Ok (VTuple [x'; y'])
-                                   | _ => Err EArrow
-                                   end) l ;;
-              Ok (VList l')
+          | VList l => l' <- mapM (arrow_pair arrow_rt ak av) l ;; Ok (VList l')
           | _ => Err EArrow
           end
       | AStruct fs =>
           match v with
-          | VRow r =>
-              r' <- (fix go (fs : list (N * aty)) : res (list (N * pv)) :=
-                       match fs with
-                       | [] => Ok []
-                       | (n, a') :: q => x <- arrow_rt a' (row_get n r) ;; q' <- go q ;; Ok ((n, x) :: q')
-                       end) fs ;;
-              Ok (VRow r')
+          | VRow r => r' <- arrow_fields_with arrow_rt r fs ;; Ok (VRow r')
           | _ => Err EArrow
           end
       end
@@ -268,7 +345,7 @@ Section Model.
   Definition encode_row (fs : list fdecl) (r : list (N * pv)) : res pv :=
     s <- schema_fields fs ;;
     x <- arrow_rt (AStruct s) (VRow r) ;;
-    match x with VRow r' => Ok (VIpcRow r') | _ => Err EArrow end.
+    match x with VRow r' => Ok (VIpcRow (batch_valid s r') r') | _ => Err EArrow end.
 
   (* ---------------------------------------------------------------- serialization *)
   Variable ce : cenv.
@@ -302,7 +379,7 @@ Section Model.
     Definition try_s (b : sbranch) : option (res pv) :=
       match b with
       | SbScalar => match v with
-                    | VStr _ | VInt _ | VFloat _ | VBool _ | VBytes _ | VIpcSchema _ | VIpcBatch _ | VIpcRow _
+                    | VStr _ | VInt _ | VFloat _ | VBool _ | VBytes _ | VIpcSchema _ | VIpcBatch _ | VIpcRow _ _
                     | VTagged _ _ | VPacked _ | VPrefixed _ _ => Some (Ok v)
                     | _ => None end
       | SbSchema => match v with VSchema i => Some (Ok (VIpcSchema i)) | _ => None end
@@ -400,7 +477,7 @@ Section Model.
     Definition from_bytes (c : N) (fs : list fdecl) (data : pv) : res pv :=
       row <- match data with
              | VBytes [] => Ok []            (* empty buffer: a 0-column batch *)
-             | VIpcRow r => Ok r
+             | VIpcRow valid r => if valid then Ok r else Err EIPC     (* ValidatedReader, IpcValidation.FULL *)
              | _ => Err EIPC
              end ;;
       (* _validate_single_row_batch: a 0-column batch skips the required-field check *)
@@ -514,7 +591,7 @@ Section Model.
     Definition type_of (v : pv) : option scalar :=     (* type(v) when it is one of the five base types *)
       match v with
       | VStr _ => Some SStr | VInt _ => Some SInt | VFloat _ => Some SFloat | VBool _ => Some SBool
-      | VBytes _ | VIpcSchema _ | VIpcBatch _ | VIpcRow _ | VTagged _ _ | VPacked _ | VPrefixed _ _ => Some SBytes
+      | VBytes _ | VIpcSchema _ | VIpcBatch _ | VIpcRow _ _ | VTagged _ _ | VPacked _ | VPrefixed _ _ => Some SBytes
       | _ => None
       end.
     Definition isinstance_rt (v : pv) (rt : list scalar) : bool :=
@@ -571,7 +648,7 @@ Section Model.
       match v with
       | VBytes (b :: r) => Some (b, VBytes r)
       | VPrefixed b p => Some (b, p)
-      | VIpcSchema _ | VIpcBatch _ | VIpcRow _ => Some (255, VBytes [])   (* Arrow IPC continuation marker; the rest is not modelled *)
+      | VIpcSchema _ | VIpcBatch _ | VIpcRow _ _ => Some (255, VBytes [])   (* Arrow IPC continuation marker; the rest is not modelled *)
       | _ => None
       end.
 
@@ -671,21 +748,24 @@ Fixpoint members_eqb (a b : list (list N * option (list N))) : bool :=
   | _, _ => false
   end.
 
+Section FieldEqb.
+  Variable rec : ty -> ty -> bool.
+  Fixpoint fields_eqb (fs fs' : list fdecl) : bool :=
+    match fs, fs' with
+    | [], [] => true
+    | (n, k, d, t) :: q, (n', k', d', t') :: q' =>
+        (n =? n') && fkind_eqb k k' && optlit_eqb d d' && rec t t' && fields_eqb q q'
+    | _, _ => false
+    end.
+End FieldEqb.
+
 Fixpoint ty_eqb (a b : ty) {struct a} : bool :=
   match a, b with
   | TScalar s, TScalar s' => scalar_eqb s s'
   | TEnum e ms, TEnum e' ms' => (e =? e') && members_eqb ms ms'
   | TOpt x, TOpt y | TList x, TList y | TSet x, TSet y => ty_eqb x y
   | TDict k v, TDict k' v' => ty_eqb k k' && ty_eqb v v'
-  | TData c fs, TData c' fs' =>
-      (c =? c')
-      && (fix go (fs fs' : list fdecl) : bool :=
-            match fs, fs' with
-            | [], [] => true
-            | (n, k, d, t) :: q, (n', k', d', t') :: q' =>
-                (n =? n') && fkind_eqb k k' && optlit_eqb d d' && ty_eqb t t' && go q q'
-            | _, _ => false
-            end) fs fs'
+  | TData c fs, TData c' fs' => (c =? c') && fields_eqb ty_eqb fs fs'
   | TSchema, TSchema | TBatch, TBatch => true
   | _, _ => false
   end.
@@ -698,26 +778,48 @@ Definition is_opt (t : ty) : bool := match t with TOpt _ => true | _ => false en
 Definition is_data (t : ty) : bool := match t with TData _ _ => true | _ => false end.
 Definition is_some {A : Type} (o : option A) : bool := match o with Some _ => true | None => false end.
 
+Section FieldLoops.
+  Variable wf_rec : ty -> bool.
+  Fixpoint wf_fields (fs : list fdecl) : bool :=
+    match fs with
+    | [] => true
+    | (_, k, d, t) :: q =>
+        match k with
+        | KTransient => is_some d
+        | KBinary => is_data (unopt t) && wf_rec t
+        | KPlain => wf_rec t
+        end && wf_fields q
+    end.
+  Variable ok_rec : ty -> bool.
+  Fixpoint cenv_fields (fs : list fdecl) : bool :=
+    match fs with
+    | [] => true
+    | (_, k, _, t) :: q => match k with KTransient => true | _ => ok_rec t end && cenv_fields q
+    end.
+  Variable inst_rec : ty -> pv -> bool.
+  Fixpoint inst_fields (fs : list fdecl) (vals : list (N * pv)) : bool :=
+    match fs, vals with
+    | [], [] => true
+    | (n, k, d, t) :: q, (n', y) :: vq =>
+        (n =? n')
+        && match k with
+           | KTransient => match d with Some l => lit_is l y | None => false end
+           | _ => inst_rec t y
+           end
+        && inst_fields q vq
+    | _, _ => false
+    end.
+End FieldLoops.
+
 (* the supported annotation grammar *)
 Fixpoint wfb (t : ty) : bool :=
   match t with
   | TScalar _ | TSchema | TBatch => true
-  | TEnum _ ms => nodup_names (map fst ms)
+  | TEnum _ ms => nodup_names (map fst ms) && forallb (fun m => forallb scalar_cp (fst m)) ms   (* member names are identifiers *)
   | TOpt t' => negb (is_opt t') && wfb t'
   | TList t' | TSet t' => wfb t'
   | TDict k v => negb (is_opt k) && wfb k && wfb v
-  | TData _ fs =>
-      nodupb (map f_name fs)
-      && (fix go (fs : list fdecl) : bool :=
-            match fs with
-            | [] => true
-            | (_, k, d, t) :: q =>
-                match k with
-                | KTransient => is_some d
-                | KBinary => is_data (unopt t) && wfb t
-                | KPlain => wfb t
-                end && go q
-            end) fs
+  | TData _ fs => nodupb (map f_name fs) && wf_fields wfb fs
   end.
 
 (* every dataclass named by the annotation is registered under its class id with exactly this declaration *)
@@ -727,11 +829,7 @@ Fixpoint cenv_okb (ce : cenv) (t : ty) : bool :=
   | TDict k v => cenv_okb ce k && cenv_okb ce v
   | TData c fs =>
       match lookup_cls ce c with Some fs' => ty_eqb (TData c fs) (TData c fs') | None => false end
-      && (fix go (fs : list fdecl) : bool :=
-            match fs with
-            | [] => true
-            | (_, k, _, t) :: q => match k with KTransient => true | _ => cenv_okb ce t end && go q
-            end) fs
+      && cenv_fields (cenv_okb ce) fs
   | _ => true
   end.
 
@@ -753,26 +851,19 @@ Fixpoint instb (t : ty) (x : pv) {struct t} : bool :=
       | VDict l => forallb (fun p => instb k (fst p) && instb v (snd p) && hashable (fst p)) l
       | _ => false
       end
-  | TData c fs =>
-      match x with
-      | VObj c' vals =>
-          (c =? c')
-          && (fix go (fs : list fdecl) (vals : list (N * pv)) : bool :=
-                match fs, vals with
-                | [], [] => true
-                | (n, k, d, t) :: q, (n', y) :: vq =>
-                    (n =? n')
-                    && match k with
-                       | KTransient => match d with Some l => lit_is l y | None => false end
-                       | _ => instb t y
-                       end
-                    && go q vq
-                | _, _ => false
-                end) fs vals
-      | _ => false
-      end
+  | TData c fs => match x with VObj c' vals => (c =? c') && inst_fields instb fs vals | _ => false end
   | TSchema => match x with VSchema _ => true | _ => false end
   | TBatch => match x with VBatch _ => true | _ => false end
+  end.
+
+(* every IPC stream inside a bytes value holds a batch that passes full validation *)
+Fixpoint ipc_clean (v : pv) : bool :=
+  match v with
+  | VIpcRow ok r => ok && forallb (fun p => ipc_clean (snd p)) r
+  | VList l | VTuple l => forallb ipc_clean l
+  | VRow r => forallb (fun p => ipc_clean (snd p)) r
+  | VTagged _ p | VPrefixed _ p => ipc_clean p
+  | _ => true
   end.
 
 (* ------------------------------------------------------------------ correspondence entry points *)
